@@ -96,6 +96,7 @@ Observed(v, o) ==
               ELSE o.v.k = "num" /\ NumClose(v.q, o.v.m, o.v.s))
       [] o.kind = "truth" -> o.b = Truthy(v)    \* if / while took the branch
       [] o.kind = "count" -> IsNum(v) /\ v.q = I(o.n)      \* number of passes of `repeat {e}` / the single value of from..to
+      [] o.kind = "none" -> FALSE               \* the statement produced nothing usable (the script stopped, or printed something else)
 RowOk(r) ==
     IF r.kind = "builtin" THEN BuiltinOk(r)
     ELSE LET v == Value(r.toks)
